@@ -2,7 +2,7 @@
    Verifier::verify. Serves C02, C06, C08, C09. *)
 From Coq Require Import List String Ascii Bool Arith NArith ZArith.
 Import ListNotations.
-Require Import SDJ.Json SDJ.Wire SDJ.Model2 SDJ.Out SDJ.Restore2 SDJ.Split SDJ.SplitM SDJ.Spec SDJ.Verify SDJ.CaseLib SDJ.CaseIssue.
+Require Import SDJ.Json SDJ.Wire SDJ.Model2 SDJ.Out SDJ.Restore2 SDJ.Split SDJ.SplitM SDJ.Spec SDJ.RefVerify SDJ.Verify SDJ.CaseLib SDJ.CaseIssue.
 Local Open Scope string_scope.
 
 Definition holder_of (O : oracles) (input : json) : out holder :=
@@ -126,7 +126,22 @@ Definition case_present_build (O : oracles) (input : json) (h : out holder) (b :
     let mv := obs_of_out (fun r : json * json => let '(hd, c) := r in JArr [hd; c]) (verifier_verify O' p kbpol) in
     let e := jget "expect" input in
     let v2 := decide (expect_oracle e (jstr_or_empty (jget "verify" e)) (Some 1) None) (jget "verify" b) mv nt "Verifier::verify" in
-    worst v1 v2
+    (* C08: the presentation the library's holder derived also verifies under the independent verifier *)
+    let v3 := if jbool (jget "ref_check" input) then
+                match jlist (jget "jwt" input) with
+                | JArr [_; _; payload] :: _ =>
+                    let '(_, ds, _) := sd_jwt_parts p in
+                    match parse_halg (jstr_or_empty (jget "_sd_alg" payload)) with
+                    | Some alg =>
+                        let dec s := match o_dec O s with DJson j => Some j | DErr => None end in
+                        match ref_verify (o_hash O alg) dec payload ds with
+                        | Some c => if json_eqb c (expected_claims e) then VOk false
+                                    else VPropFail "the holder's presentation does not verify to the expected claims under the independent verifier"
+                        | None => VPropFail "the holder's presentation is rejected by the independent verifier" end
+                    | None => VBad "ref_check without _sd_alg" end
+                | _ => VBad "ref_check without jwt table" end
+              else VOk false in
+    worst v1 (worst v2 v3)
   else v1.
 
 (* nonces of repeated builds are pairwise distinct *)
